@@ -410,7 +410,8 @@ def run_one(tape, opts):
     else:
         _oracle(out, stream_suite, workers, yielded, faults, plan, sched, state, exc, abort_expected, events, queues,
                 sems if not run2["ran"] else sems[:len(sems) - len(run2["sems"])],
-                sched.threads if not run2["ran"] else sched.threads[:len(sched.threads) - len(run2["threads"])])
+                sched.threads if not run2["ran"] else sched.threads[:len(sched.threads) - len(run2["threads"])],
+                fault_log=list(world.fault_log))
         # a stop that was delivered stays delivered: nothing the suite does afterwards may take it back
         if abort_expected is not None:
             for i in sorted(set(state["stop_log"])):
@@ -482,7 +483,7 @@ def run_one(tape, opts):
     return out
 
 
-def _oracle(out, stream_suite, workers, yielded, faults, plan, sched, state, exc, abort_expected, events, queues, sems, threads):
+def _oracle(out, stream_suite, workers, yielded, faults, plan, sched, state, exc, abort_expected, events, queues, sems, threads, fault_log=None):
     tag = "stream" if stream_suite else "plain"
     # -- abort / propagation
     if abort_expected is None:
@@ -523,7 +524,7 @@ def _oracle(out, stream_suite, workers, yielded, faults, plan, sched, state, exc
         if s.value != 1:
             out.violate("semaphore-held", tag, f"semaphore value {s.value} after the run (holder {s.holder})")
     if exc is not None or plan.fired:
-        return _partial_delivery(out, stream_suite, workers, events)
+        return _partial_delivery(out, stream_suite, workers, events, fault_log)
     # -- conservation and order (fault-free path)
     if stream_suite:
         _stream_delivery(out, workers, events, queues, sched)
@@ -671,7 +672,7 @@ def _plain_delivery(out, workers, events):
             out.violate("event-duplicated", "plain:unknown-thread", f"{e}")
 
 
-def _partial_delivery(out, stream_suite, workers, events):
+def _partial_delivery(out, stream_suite, workers, events, fault_log=None):
     """After an abort or a result fault: nothing duplicated, per-worker order preserved."""
     if stream_suite:
         for w in workers:
@@ -685,6 +686,23 @@ def _partial_delivery(out, stream_suite, workers, events):
             if idx != sorted(idx):
                 out.violate("event-reordered", "stream:after-abort", f"worker {w.idx}: {finals}")
     else:
+        # "ConcurrentTestSuite's result sees one test at a time" - also when the result itself raised somewhere:
+        # a test it was told to start is closed before the next one starts (unless it refused the stopTest)
+        timeline = sorted([(e.seq, "ev", e) for e in events] + [(f[0], "fault", f) for f in (fault_log or [])], key=lambda x: x[0])
+        open_test = None
+        for _, what, x in timeline:
+            if what == "fault":
+                if x[2] == "stopTest" and open_test is not None and x[3] == open_test:
+                    open_test = None          # the result raised from stopTest: its own doing
+                continue
+            if x.method == "startTest":
+                if open_test is not None:
+                    out.violate("block-interleaved", "plain:startTest-while-a-faulted-test-is-open",
+                                f"startTest({x.test_id}) arrived while {open_test} had been started and not stopped; faults {fault_log}")
+                    break
+                open_test = x.test_id
+            elif x.method == "stopTest":
+                open_test = None
         for w in workers:
             th = w.run_threads[0] if w.run_threads else None
             got = [e.test_id for e in events if e.thread == th and e.method in OUTCOMES]
